@@ -6,6 +6,7 @@ import (
 	"go/constant"
 	"go/parser"
 	"go/token"
+	"golang.org/x/tools/go/packages"
 	"os"
 	"os/exec"
 	"path/filepath"
@@ -174,7 +175,8 @@ func C04(c *Ctx) {
 				}
 				for _, e := range cl.Elts {
 					if kv, ok := e.(*ast.KeyValueExpr); ok {
-						got[nospace(kv.Key)] = nospace(kv.Value)
+						// (a named constant reads as its value)
+						got[nospace(kv.Key)] = constText(rootPkg, kv.Value)
 					}
 				}
 				return false
@@ -844,4 +846,13 @@ func c04Flags(c *Ctx, g *load.G) {
 	}
 	sort.Strings(bad2)
 	r.Check(len(bad2) == 0, "C04-f", "G.builder:options-store-their-own-field", "", "builder/builder.go", "five options, each storing its argument into its field", strings.Join(bad2, "; "))
+}
+
+// constText renders an expression; a constant expression (a literal, a named constant, arithmetic on them) is
+// rendered as its value.
+func constText(p *packages.Package, e ast.Expr) string {
+	if tv, ok := p.TypesInfo.Types[e]; ok && tv.Value != nil {
+		return tv.Value.ExactString()
+	}
+	return nospace(e)
 }
